@@ -253,8 +253,8 @@ def run_desc(ctx, exe, tier, seed):
     return issues, stats
 
 
-FAULT_SCRIPTS_QUICK = [0, 1, 2, 101]
-FAULT_SCRIPTS_THOROUGH = [0, 1, 2] + list(range(101, 131))
+FAULT_SCRIPTS_QUICK = [0, 1, 2, 3, 101]
+FAULT_SCRIPTS_THOROUGH = [0, 1, 2, 3] + list(range(101, 131))
 
 
 def run_fault(ctx, exe, tier, seed):
